@@ -25,7 +25,7 @@ BagEq(s, t) ==
        /\ (Cardinality(S) = Len(s) \/ \A x \in S : Count(s, x) = Count(t, x))
 V1(ps, q) == [ps |-> ps, q |-> q]
 
-WrongOps == {"push_wrong", "insert_wrong", "swap_wrong", "splice_wrong", "downcast_q"}
+WrongOps == {"push_wrong", "insert_wrong", "swap_wrong", "splice_wrong", "downcast_q", "cross_wrong"}
 CloneOps == {"clone_vec", "ce_probe", "fn_ptrs"}
 LazyOps  == {"lazy"}
 CapOps   == {"reserve", "reserve_exact", "shrink_to_fit", "shrink_to", "recreate"}
@@ -92,7 +92,7 @@ ProtoViol(mem, canary) ==
 (* a clone_empty_in probe builds a temporary vector on the requested backend: allocator traffic is expected exactly when *)
 (* that backend is the heap (or the source's own resizable backend)                                                    *)
 ProbeMem(a, mem) ==
-  IF a.op = "ce_probe" /\ (a.via \in {"heap", "fence"} \/ (a.via = "same" /\ ~Cfg.fixed))
+  IF (a.op = "ce_probe" /\ (a.via \in {"heap", "fence"} \/ (a.via = "same" /\ ~Cfg.fixed))) \/ (a.op = "cross_wrong" /\ ~Cfg.fixed)
   THEN <<>> ELSE mem
 
 (* the explicit capacity constraint of the step for vector w, or the default derived from the lengths:              *)
